@@ -368,6 +368,7 @@ func checkC16(c *Ctx) {
 		li      int
 		text    string
 		corrupt bool
+		stray   bool // a stray quote was appended: a warning on that line is allowed, not required (trailing text is a comment)
 	}
 	var scs []scase
 	per := len(lines)/400 + 1
@@ -379,7 +380,11 @@ func checkC16(c *Ctx) {
 			continue
 		}
 		a := lines[i]
-		scs = append(scs, scase{i, anJoin(a.Toks, 0), false})
+		scs = append(scs, scase{i, anJoin(a.Toks, 0), false, false})
+		if !a.Cmt {
+			// a stray quote at the end of the line (an unterminated string constant) is malformed whatever precedes it
+			scs = append(scs, scase{i, anJoin(a.Toks, 0) + " | '", false, true}, scase{i, anJoin(a.Toks, 0) + " \"", false, true})
+		}
 		for d := 1; d < len(a.Toks); d++ {
 			m := append(append([]string{}, a.Toks[:d]...), a.Toks[d+1:]...)
 			if valid[strings.Join(m, " ")] || len(m) < 2 {
@@ -389,7 +394,7 @@ func checkC16(c *Ctx) {
 			// enumerated language does not contain and that end abruptly are used
 			last := m[len(m)-1]
 			if last == "," || last == "|" || last == ":" || last == "(" || last == "<" || last == "[" {
-				scs = append(scs, scase{i, anJoin(m, 0), true})
+				scs = append(scs, scase{i, anJoin(m, 0), true, false})
 			}
 		}
 	}
@@ -426,7 +431,13 @@ func checkC16(c *Ctx) {
 		locs, _ := projLocs(res.Root, res.Steps[1].Reply)
 		neighbourOK := len(locs) == 1 && locs[0].SL == 1 // nb.fa -> the ---@field fa line
 		var prob []string
-		if !s.corrupt && len(t18) > 0 {
+		if s.stray {
+			for _, l := range t18 {
+				if l != 6 {
+					prob = append(prob, fmt.Sprintf("a warning for the line with the stray quote is reported on line %d", l))
+				}
+			}
+		} else if !s.corrupt && len(t18) > 0 {
 			prob = append(prob, fmt.Sprintf("a documented line gets an annotation warning (lines %v)", t18))
 		}
 		if s.corrupt {
